@@ -336,6 +336,12 @@ type OrderCase struct {
 	// events were already published, so the two handlers' places in line
 	// carry different numbers for the same event.
 	Pre int `json:"pre,omitempty"`
+	// CancelMod > 0: a synchronous context-aware handler, subscribed before
+	// the Async+Sequential ones, cancels the context of every publish whose
+	// event id is a multiple of CancelMod.  Whether the later handlers still
+	// receive such an event is not C07's business; every other event reaches
+	// them, in publish order, and the bus drains.
+	CancelMod int `json:"cancel_mod,omitempty"`
 }
 
 func RunOrder(c *OrderCase) *vkit.Outcome {
@@ -357,6 +363,15 @@ func runOrder(c *OrderCase, k *counters) *vkit.Outcome {
 	pre := 0
 	if c.Pre > 0 && len(c.Handlers) == 2 {
 		pre = c.Pre
+	}
+	var curCancel context.CancelFunc
+	var cancels []context.CancelFunc
+	if c.CancelMod > 0 {
+		eventbus.SubscribeContext(bus, func(_ context.Context, e Ev) {
+			if curCancel != nil && e.ID%c.CancelMod == 0 {
+				curCancel()
+			}
+		})
 	}
 	for i, h := range c.Handlers {
 		if i == 1 && pre > 0 {
@@ -388,7 +403,13 @@ func runOrder(c *OrderCase, k *counters) *vkit.Outcome {
 		}
 	}
 	for id := 0; id < c.N; id++ {
-		if c.UseCtx {
+		if c.CancelMod > 0 {
+			ctx, cancel := context.WithCancel(context.Background())
+			curCancel = cancel
+			cancels = append(cancels, cancel)
+			pub(bus, ctx, Ev{id}, c.ViaAny)
+			curCancel = nil
+		} else if c.UseCtx {
 			pub(bus, context.Background(), Ev{id}, c.ViaAny)
 		} else {
 			pub(bus, nil, Ev{id}, c.ViaAny)
@@ -401,6 +422,9 @@ func runOrder(c *OrderCase, k *counters) *vkit.Outcome {
 		}
 	}
 	bus.Wait()
+	for _, cancel := range cancels {
+		cancel()
+	}
 	want := make([]int, c.N)
 	for i := range want {
 		want[i] = i
@@ -423,6 +447,24 @@ func runOrder(c *OrderCase, k *counters) *vkit.Outcome {
 		if len(want) != len(all) {
 			o.Class("filtered_async_sequential_handler")
 		}
+		if c.CancelMod > 0 {
+			// events cancelled by the earlier synchronous handler may or may
+			// not have reached this one: compare what is left
+			strip := func(ids []int) []int {
+				var out []int
+				for _, id := range ids {
+					if id >= 100000 || id%c.CancelMod != 0 {
+						out = append(out, id)
+					}
+				}
+				return out
+			}
+			full := fmt.Sprint(s.seen) == fmt.Sprint(want)
+			if !full && fmt.Sprint(strip(s.seen)) == fmt.Sprint(strip(want)) && increasing(s.seen) {
+				o.Class("events_cancelled_by_an_earlier_synchronous_handler")
+				continue
+			}
+		}
 		if fmt.Sprint(s.seen) != fmt.Sprint(want) {
 			o.Failf("async-sequential-out-of-order", "Async+Sequential handler %d %+v processed events in order %v; they were published by one goroutine in order 0..%d (its filter accepts %v)", i, c.Handlers[i], s.seen, c.N-1, want)
 			return o
@@ -436,4 +478,19 @@ func runOrder(c *OrderCase, k *counters) *vkit.Outcome {
 		o.Class("second_handler_subscribed_after_earlier_publishes")
 	}
 	return o
+}
+
+// increasing: ids of the main run ascend (the pre-run ids 100000.. come first).
+func increasing(ids []int) bool {
+	prev := -1
+	for _, id := range ids {
+		if id >= 100000 {
+			continue
+		}
+		if id <= prev {
+			return false
+		}
+		prev = id
+	}
+	return true
 }
